@@ -20,7 +20,7 @@ def gather_states(tier, run, budget=None):
     Returns [(model, trace, profile_name, flags, depth)] - flags: union of the machine flags of the profiles that
     reach the state, depth: smallest BFS depth at which it is reached."""
     k = 2 if tier == 'quick' else 3
-    budget = budget or int(os.environ.get('VERIF_STATE_BUDGET', '0')) or (1000 if tier == 'quick' else 600)
+    budget = budget or int(os.environ.get('VERIF_STATE_BUDGET', '0')) or (1500 if tier == 'quick' else 600)
     seen = {}
     out = []
     prof_info = {}
